@@ -4,7 +4,7 @@ CONSTANTS
   Kinds = {"mutex", "bool"}
   MaxBatch = 2
   MaxClearBatch = 1
-  Ops = {"Set", "Clear", "Import", "ClearImport", "ClearRow", "Roaring", "BadRow"}
+  Ops = {"Set", "Clear", "Import", "ClearImport", "ClearRow"}
   Inits = "all"
   Depth = 2
 INIT Init
